@@ -388,7 +388,8 @@ impl SubscriptionActor {
     /// through the mailbox; until then the actor keeps receiving (and ignoring) requests.
     fn begin_delete(&mut self, responder: oneshot::Sender<Result<(), DeleteError>>) {
         if self.deleted {
-            let _ = responder.send(Ok(()));
+            // Another delete got here first; this one did not delete anything.
+            let _ = responder.send(Err(DeleteError::Closed));
             return;
         }
 
